@@ -5,21 +5,208 @@ C20, file level: the `.aux` file written by `exportIspdAux` selects the four dat
 -/
 namespace ColoVerif.Ispd.Text
 open ColoVerif ColoVerif.Ispd
+open ColoVerif.Ispd.Text.Base
+
+namespace Aux
+
+theorem isPrefixOf_append_false (Q A B : Line) (h : (Q.take A.length).isPrefixOf A = false) :
+    Q.isPrefixOf (A ++ B) = false := by
+  induction A generalizing Q with
+  | nil => simp at h
+  | cons a A ih =>
+    cases Q with
+    | nil => simp at h
+    | cons q Q =>
+      simp only [List.length_cons, List.take_succ_cons, List.isPrefixOf_cons_cons, Bool.and_eq_false_iff] at h
+      simp only [List.cons_append, List.isPrefixOf_cons_cons, Bool.and_eq_false_iff]
+      rcases h with h | h
+      · exact Or.inl h
+      · exact Or.inr (ih Q h)
+
+theorem endsWith_append_false (s : String) (pre K : Line)
+    (h : (s.toList.reverse.take K.length).isPrefixOf K.reverse = false) : endsWith s (pre ++ K) = false := by
+  unfold endsWith
+  rw [List.reverse_append]
+  exact isPrefixOf_append_false _ _ _ (by simpa using h)
+
+theorem endsWith_append_true (s : String) (pre K : Line) (h : endsWith s K = true) :
+    endsWith s (pre ++ K) = true := by
+  unfold endsWith at *
+  rw [List.reverse_append]
+  have hp := List.isPrefixOf_iff_prefix.1 h
+  exact List.isPrefixOf_iff_prefix.2 (hp.trans (List.prefix_append _ _))
+
+theorem goodPrefix_spec {pre : Line} (h : goodPrefix pre = true) :
+    pre ≠ [] ∧ Free isWs pre ∧ (startsWith "/" pre = true ∨ '/' ∉ pre) := by
+  simp only [goodPrefix, Bool.and_eq_true, Bool.or_eq_true, Bool.not_eq_true', List.all_eq_true,
+    List.isEmpty_eq_false_iff, List.contains_eq_mem, decide_eq_false_iff_not] at h
+  exact ⟨h.1.1, h.1.2, h.2⟩
+
+theorem split_auxLine (pre : Line) (hne : pre ≠ []) (hf : Free isWs pre) :
+    split ("RowBasedPlacement : ".toList ++ (pre ++ (".nodes ".toList ++ (pre ++ (".nets ".toList ++
+      (pre ++ (".pl ".toList ++ (pre ++ ".scl".toList)))))))) =
+    ["RowBasedPlacement".toList, [':'], pre ++ ".nodes".toList, pre ++ ".nets".toList, pre ++ ".pl".toList,
+      pre ++ ".scl".toList] := by
+  have e0 : ∀ r, "RowBasedPlacement : ".toList ++ r = "RowBasedPlacement".toList ++ ' ' :: ([':'] ++ ' ' :: r) :=
+    fun r => rfl
+  have e1 : ∀ r, pre ++ (".nodes ".toList ++ r) = (pre ++ ".nodes".toList) ++ ' ' :: r :=
+    fun r => by rw [List.append_assoc]; rfl
+  have e2 : ∀ r, pre ++ (".nets ".toList ++ r) = (pre ++ ".nets".toList) ++ ' ' :: r :=
+    fun r => by rw [List.append_assoc]; rfl
+  have e3 : ∀ r, pre ++ (".pl ".toList ++ r) = (pre ++ ".pl".toList) ++ ' ' :: r :=
+    fun r => by rw [List.append_assoc]; rfl
+  have hw : isWs ' ' = true := by decide
+  have ne : ∀ K : Line, pre ++ K ≠ [] := fun K => by simp [hne]
+  rw [e0, e1, e2, e3]
+  unfold split
+  rw [splitBy_tok isWs (by decide) (by unfold Free; decide) hw,
+    splitBy_tok isWs (by decide) (by unfold Free; decide) hw,
+    splitBy_tok isWs (ne _) (free_append hf (by unfold Free; decide)) hw,
+    splitBy_tok isWs (ne _) (free_append hf (by unfold Free; decide)) hw,
+    splitBy_tok isWs (ne _) (free_append hf (by unfold Free; decide)) hw,
+    splitBy_tok_end isWs (ne _) (free_append hf (by unfold Free; decide))]
+
+theorem startsWith_slash_append {pre : Line} (h : startsWith "/" pre = true) (K : Line) :
+    startsWith "/" (pre ++ K) = true := by
+  cases pre with
+  | nil => exact absurd h (by decide)
+  | cons c r => rw [startsWith_append_of_le _ _ _ (by simp)]; exact h
+
+theorem pathJoin_abs {b : Line} (h : startsWith "/" b = true) (a : Line) : pathJoin a b = b := by
+  unfold pathJoin; rw [if_pos h]
+
+theorem pathJoin_nil (b : Line) : pathJoin [] b = b := by
+  unfold pathJoin; split <;> simp
+
+theorem dropWhile_all (p : Char → Bool) (l : Line) (h : ∀ x ∈ l, p x = true) : l.dropWhile p = [] := by
+  induction l with
+  | nil => rfl
+  | cons c cs ih =>
+    rw [List.dropWhile_cons, if_pos (h c List.mem_cons_self)]
+    exact ih (fun x hx => h x (List.mem_cons_of_mem _ hx))
+
+theorem dirname_noslash {p : Line} (h : '/' ∉ p) : dirname p = [] := by
+  have : p.reverse.dropWhile (· != '/') = [] := by
+    apply dropWhile_all
+    intro x hx
+    have : x ≠ '/' := fun e => h (e ▸ List.mem_reverse.1 hx)
+    simpa using this
+  unfold dirname
+  rw [this]
+  rfl
+
+theorem pathJoin_dirname {pre : Line} (hs : startsWith "/" pre = true ∨ '/' ∉ pre) (K K' : Line)
+    (hK : '/' ∉ K) : pathJoin (dirname (pre ++ K)) (pre ++ K') = pre ++ K' := by
+  rcases hs with hs | hs
+  · exact pathJoin_abs (startsWith_slash_append hs K') _
+  · rw [dirname_noslash (by simp [hs, hK]), pathJoin_nil]
+
+end Aux
+open Aux
 
 /-- the `.aux` text names exactly the four files (for a good prefix) -/
 theorem auxSelect_auxText (pre : Line) (h : goodPrefix pre = true) :
     auxSelect (pre ++ ".aux".toList) (auxText pre) =
       .ok (pre ++ ".nodes".toList, pre ++ ".nets".toList, pre ++ ".pl".toList, pre ++ ".scl".toList) := by
-  sorry
+  obtain ⟨hne, hf, hs⟩ := goodPrefix_spec h
+  have hK : '/' ∉ ".aux".toList := by decide
+  have hpj := fun K' => pathJoin_dirname hs ".aux".toList K' hK
+  have f1 : List.filter (endsWith ".nodes") ["RowBasedPlacement".toList, [':'], pre ++ ".nodes".toList,
+      pre ++ ".nets".toList, pre ++ ".pl".toList, pre ++ ".scl".toList] = [pre ++ ".nodes".toList] := by
+    simp only [List.filter_cons, List.filter_nil,
+      show endsWith ".nodes" "RowBasedPlacement".toList = false by decide,
+      show endsWith ".nodes" [':'] = false by decide,
+      endsWith_append_true ".nodes" pre ".nodes".toList (by decide),
+      endsWith_append_false ".nodes" pre ".nets".toList (by decide),
+      endsWith_append_false ".nodes" pre ".pl".toList (by decide),
+      endsWith_append_false ".nodes" pre ".scl".toList (by decide), if_true, Bool.false_eq_true, if_false]
+  have f2 : List.filter (endsWith ".nets") ["RowBasedPlacement".toList, [':'], pre ++ ".nodes".toList,
+      pre ++ ".nets".toList, pre ++ ".pl".toList, pre ++ ".scl".toList] = [pre ++ ".nets".toList] := by
+    simp only [List.filter_cons, List.filter_nil,
+      show endsWith ".nets" "RowBasedPlacement".toList = false by decide,
+      show endsWith ".nets" [':'] = false by decide,
+      endsWith_append_true ".nets" pre ".nets".toList (by decide),
+      endsWith_append_false ".nets" pre ".nodes".toList (by decide),
+      endsWith_append_false ".nets" pre ".pl".toList (by decide),
+      endsWith_append_false ".nets" pre ".scl".toList (by decide), if_true, Bool.false_eq_true, if_false]
+  have f3 : List.filter (endsWith ".pl") ["RowBasedPlacement".toList, [':'], pre ++ ".nodes".toList,
+      pre ++ ".nets".toList, pre ++ ".pl".toList, pre ++ ".scl".toList] = [pre ++ ".pl".toList] := by
+    simp only [List.filter_cons, List.filter_nil,
+      show endsWith ".pl" "RowBasedPlacement".toList = false by decide,
+      show endsWith ".pl" [':'] = false by decide,
+      endsWith_append_true ".pl" pre ".pl".toList (by decide),
+      endsWith_append_false ".pl" pre ".nodes".toList (by decide),
+      endsWith_append_false ".pl" pre ".nets".toList (by decide),
+      endsWith_append_false ".pl" pre ".scl".toList (by decide), if_true, Bool.false_eq_true, if_false]
+  have f4 : List.filter (endsWith ".scl") ["RowBasedPlacement".toList, [':'], pre ++ ".nodes".toList,
+      pre ++ ".nets".toList, pre ++ ".pl".toList, pre ++ ".scl".toList] = [pre ++ ".scl".toList] := by
+    simp only [List.filter_cons, List.filter_nil,
+      show endsWith ".scl" "RowBasedPlacement".toList = false by decide,
+      show endsWith ".scl" [':'] = false by decide,
+      endsWith_append_true ".scl" pre ".scl".toList (by decide),
+      endsWith_append_false ".scl" pre ".nodes".toList (by decide),
+      endsWith_append_false ".scl" pre ".nets".toList (by decide),
+      endsWith_append_false ".scl" pre ".pl".toList (by decide), if_true, Bool.false_eq_true, if_false]
+  unfold auxSelect auxText
+  simp only [List.map_cons, List.map_nil, List.flatten_cons, List.flatten_nil, List.append_nil]
+  rw [split_auxLine pre hne hf]
+  simp only [f1, f2, f3, f4, exactlyOne, hpj]
+
+namespace Aux
+
+theorem openFile_exportFS (pre : Line) (c : Circuit) (K : Line) (t : List Line)
+    (h1 : ((".gz".toList.reverse.take K.length).isPrefixOf K.reverse) = false)
+    (h2 : ((".xz".toList.reverse.take K.length).isPrefixOf K.reverse) = false)
+    (h3 : ((".lzma".toList.reverse.take K.length).isPrefixOf K.reverse) = false)
+    (ht : exportFS pre c (pre ++ K) = some t) :
+    openFile (exportFS pre c) (pre ++ K) = .ok t := by
+  unfold openFile
+  rw [endsWith_append_false _ _ _ h1, endsWith_append_false _ _ _ h2, endsWith_append_false _ _ _ h3, ht]
+  rfl
+
+theorem exportFS_aux (pre : Line) (c : Circuit) : exportFS pre c (pre ++ ".aux".toList) = some (auxText pre) := by
+  unfold exportFS; rw [if_pos rfl]
+
+theorem exportFS_nodes (pre : Line) (c : Circuit) : exportFS pre c (pre ++ ".nodes".toList) = some (nodesText c) := by
+  unfold exportFS
+  rw [if_neg (by rw [List.append_right_inj]; decide), if_pos rfl]
+
+theorem exportFS_pl (pre : Line) (c : Circuit) : exportFS pre c (pre ++ ".pl".toList) = some (plText c) := by
+  unfold exportFS
+  rw [if_neg (by rw [List.append_right_inj]; decide), if_neg (by rw [List.append_right_inj]; decide), if_pos rfl]
+
+theorem exportFS_nets (pre : Line) (c : Circuit) : exportFS pre c (pre ++ ".nets".toList) = some (netsText c) := by
+  unfold exportFS
+  rw [if_neg (by rw [List.append_right_inj]; decide), if_neg (by rw [List.append_right_inj]; decide),
+    if_neg (by rw [List.append_right_inj]; decide), if_pos rfl]
+
+theorem exportFS_scl (pre : Line) (c : Circuit) : exportFS pre c (pre ++ ".scl".toList) = some (sclText c) := by
+  unfold exportFS
+  rw [if_neg (by rw [List.append_right_inj]; decide), if_neg (by rw [List.append_right_inj]; decide),
+    if_neg (by rw [List.append_right_inj]; decide), if_neg (by rw [List.append_right_inj]; decide), if_pos rfl]
+
+theorem readIspd_of_auxPath (pre : Line) (c : Circuit) (h : goodPrefix pre = true) (kind : PathKind) (f : Line)
+    (hk : auxPath kind f = .ok (pre ++ ".aux".toList)) :
+    readIspd (exportFS pre c) kind f = readText (writeText c) := by
+  unfold readIspd
+  rw [hk, ok_bind, exportFS_aux]
+  simp only [pure_eq_ok, ok_bind, auxSelect_auxText pre h]
+  rw [openFile_exportFS pre c _ _ (by decide) (by decide) (by decide) (exportFS_nodes pre c),
+    openFile_exportFS pre c _ _ (by decide) (by decide) (by decide) (exportFS_nets pre c),
+    openFile_exportFS pre c _ _ (by decide) (by decide) (by decide) (exportFS_pl pre c),
+    openFile_exportFS pre c _ _ (by decide) (by decide) (by decide) (exportFS_scl pre c)]
+  rfl
+
+end Aux
 
 /-- `read_ispd("<pre>.aux")` on what `exportIspd("<pre>")` wrote -/
 theorem readIspd_exportFS (pre : Line) (c : Circuit) (h : goodPrefix pre = true) :
-    readIspd (exportFS pre c) .exists_ (pre ++ ".aux".toList) = readText (writeText c) := by
-  sorry
+    readIspd (exportFS pre c) .exists_ (pre ++ ".aux".toList) = readText (writeText c) :=
+  readIspd_of_auxPath pre c h _ _ rfl
 
 /-- `read_ispd("<pre>")` (no such file: `.aux` is appended) -/
 theorem readIspd_exportFS_missing (pre : Line) (c : Circuit) (h : goodPrefix pre = true) :
-    readIspd (exportFS pre c) .missing pre = readText (writeText c) := by
-  sorry
+    readIspd (exportFS pre c) .missing pre = readText (writeText c) :=
+  readIspd_of_auxPath pre c h _ _ rfl
 
 end ColoVerif.Ispd.Text
